@@ -21,6 +21,9 @@ import (
 	"github.com/KiraCore/sekai/x/gov"
 	govkeeper "github.com/KiraCore/sekai/x/gov/keeper"
 	govtypes "github.com/KiraCore/sekai/x/gov/types"
+	"github.com/KiraCore/sekai/x/spending"
+	spendingkeeper "github.com/KiraCore/sekai/x/spending/keeper"
+	spendingtypes "github.com/KiraCore/sekai/x/spending/types"
 	sdk "github.com/cosmos/cosmos-sdk/types"
 )
 
@@ -36,7 +39,9 @@ var probeKeeper govkeeper.Keeper
 var (
 	inEnd      bool
 	applyLog   []applyRec
-	typeNames  = []string{"SetNetworkProperty", "UpsertDataRegistry", "WhitelistAccountPermission", "RemoveWhitelistedAccountPermission", "SetProposalDurations", "X6", "X7", "X8"}
+	typeNames  = []string{"SetNetworkProperty", "UpsertDataRegistry", "WhitelistAccountPermission", "RemoveWhitelistedAccountPermission", "SetProposalDurations", "UpdateSpendingPool", "X7", "X8"}
+	poolNames  = []string{"probe1", "probe2"}
+	spk        spendingkeeper.Keeper
 	regKeys    = []string{"k1", "k2", "k3", "k4"}
 	createPerm = []uint32{12, 10, 4, 35, 31}
 	votePerm   = []uint32{13, 11, 5, 36, 32}
@@ -63,6 +68,26 @@ func (l logged) Apply(ctx sdk.Context, id uint64, c govtypes.Content, slash sdk.
 	return err
 }
 
+// a dynamic-voter handler (voters, quorum and periods come from the handler): the real one, with logged Apply
+type loggedDyn struct {
+	logged
+	d govtypes.DynamicVoterProposalHandler
+}
+
+func (l loggedDyn) IsAllowedAddress(ctx sdk.Context, a sdk.AccAddress, c govtypes.Content) bool {
+	return l.d.IsAllowedAddress(ctx, a, c)
+}
+func (l loggedDyn) Quorum(ctx sdk.Context, c govtypes.Content) sdk.Dec { return l.d.Quorum(ctx, c) }
+func (l loggedDyn) VotePeriod(ctx sdk.Context, c govtypes.Content) uint64 {
+	return l.d.VotePeriod(ctx, c)
+}
+func (l loggedDyn) VoteEnactment(ctx sdk.Context, c govtypes.Content) uint64 {
+	return l.d.VoteEnactment(ctx, c)
+}
+func (l loggedDyn) AllowedAddresses(ctx sdk.Context, c govtypes.Content) []string {
+	return l.d.AllowedAddresses(ctx, c)
+}
+
 // ---------------------------------------------------------------- model-side encodings
 
 type content struct {
@@ -70,6 +95,18 @@ type content struct {
 	A    int64    `json:"a,omitempty"`
 	B    string   `json:"b,omitempty"` // big value as decimal string
 	L    [][2]int `json:"l,omitempty"`
+	// poolupdate: A = pool name code, Owners, B = quorum (e18), Period, Enact
+	Owners []int64 `json:"owners,omitempty"`
+	Period int64   `json:"period,omitempty"`
+	Enact  int64   `json:"enact,omitempty"`
+}
+
+func zlist(xs []int64) string {
+	var ys []string
+	for _, x := range xs {
+		ys = append(ys, strconv.FormatInt(x, 10))
+	}
+	return hx.List(ys)
 }
 
 func (c content) coq() string {
@@ -82,6 +119,8 @@ func (c content) coq() string {
 		return fmt.Sprintf("(CWhitelist %d %s)", c.A, zs(c.B))
 	case "unwhitelist":
 		return fmt.Sprintf("(CUnwhitelist %d %s)", c.A, zs(c.B))
+	case "poolupdate":
+		return fmt.Sprintf("(CPoolUpdate %d %s %s %d %d)", c.A, zlist(c.Owners), zs(c.B), c.Period, c.Enact)
 	default:
 		var xs []string
 		for _, e := range c.L {
@@ -136,6 +175,14 @@ func (c content) real() govtypes.Content {
 	case "unwhitelist":
 		p, _ := strconv.Atoi(c.B)
 		return govtypes.NewRemoveWhitelistedAccountPermissionProposal(addr(c.A), govtypes.PermValue(p))
+	case "poolupdate":
+		bi, _ := new(big.Int).SetString(c.B, 10)
+		var owners []string
+		for _, o := range c.Owners {
+			owners = append(owners, addr(o).String())
+		}
+		return spendingtypes.NewUpdateSpendingPoolProposal(poolNames[c.A-1], 0, 0, sdk.DecCoins{}, sdk.NewDecFromBigIntWithPrec(bi, 18),
+			uint64(c.Period), uint64(c.Enact), spendingtypes.PermInfo{OwnerAccounts: owners}, spendingtypes.WeightedPermInfo{}, false, 0)
 	default:
 		var ts []string
 		var ds []uint64
@@ -224,7 +271,21 @@ func worldCoq(ctx sdk.Context, k govkeeper.Keeper) string {
 			rs = append(rs, strings.TrimPrefix(e.Hash, "h"))
 		}
 	}
-	return fmt.Sprintf("(mkW %s %s %s %s)", np, hx.List(as), hx.List(ds), hx.List(rs))
+	pool := "None"
+	if pl := spk.GetSpendingPool(ctx, poolNames[0]); pl != nil {
+		var os []int64
+		for _, o := range pl.Owners.OwnerAccounts {
+			who := int64(-1)
+			for i := int64(0); i < nActors; i++ {
+				if addr(i).String() == o {
+					who = i
+				}
+			}
+			os = append(os, who)
+		}
+		pool = fmt.Sprintf("(Some (mkPool %s %s %d %d))", zlist(os), hx.ZBig(pl.VoteQuorum.BigInt()), pl.VotePeriod, pl.VoteEnactment)
+	}
+	return fmt.Sprintf("(mkW %s %s %s %s %s)", np, hx.List(as), hx.List(ds), hx.List(rs), pool)
 }
 
 var farFuture = time.Unix(1<<40, 0).UTC()
@@ -305,6 +366,7 @@ type bspec struct {
 	Votes   int    `json:"votes"`
 	Yes     int    `json:"yes"`
 	Veto    int    `json:"veto"`
+	Dynamic bool   `json:"dynamic_voter_proposal,omitempty"` // the electorate are the owners of a spending pool
 }
 
 func around(x, lo, hi int, extra ...int) []int {
@@ -317,6 +379,22 @@ func around(x, lo, hi int, extra ...int) []int {
 		}
 	}
 	return out
+}
+
+func randPool(r *hx.Rng, na int, quorums []string, secs []int64) *content {
+	m := 1 + r.Intn(4)
+	if r.Chance(5) {
+		m = 0
+	}
+	var owners []int64
+	for i := 0; i < m; i++ {
+		owners = append(owners, int64(r.Intn(na+1)))
+	}
+	name := int64(1)
+	if r.Chance(5) {
+		name = 2
+	}
+	return &content{Kind: "poolupdate", A: name, Owners: owners, B: quorums[r.Intn(len(quorums))], Period: secs[r.Intn(len(secs))], Enact: secs[r.Intn(len(secs))]}
 }
 
 func boundarySpecs() (core, all []bspec) {
@@ -336,6 +414,14 @@ func boundarySpecs() (core, all []bspec) {
 						for _, y := range around(m/2, 0, m-v, (m+1)/2, m-v) {
 							sp := bspec{N: n, Capable: c, Quorum: q, Votes: m, Yes: y, Veto: v}
 							all = append(all, sp)
+							if n <= 6 {
+								dsp := sp
+								dsp.Dynamic = true
+								all = append(all, dsp)
+								if c >= 2 && c < n && c%2 == 0 && v == c/2 && m == n && y == m-v && q == qs[2] {
+									core = append(core, dsp)
+								}
+							}
 							// core: exactly half of an even veto-capable subset vetoes while yes has the majority,
 							// and the two neighbours of that point
 							if c >= 2 && c < n && c%2 == 0 && v == c/2 && m == n && y == m-v && q == qs[2] {
@@ -370,7 +456,9 @@ func main() {
 		logged{gov.NewApplyWhitelistAccountPermissionProposalHandler(k)},
 		logged{gov.NewApplyRemoveWhitelistedAccountPermissionProposalHandler(k)},
 		logged{gov.NewApplySetProposalDurationsProposalHandler(k)},
+		loggedDyn{logged{spending.NewApplyUpdateSpendingPoolProposalHandler(app.SpendingKeeper)}, spending.NewApplyUpdateSpendingPoolProposalHandler(app.SpendingKeeper)},
 	}))
+	spk = app.SpendingKeeper
 	ms := govkeeper.NewMsgServerImpl(k)
 	// the generated histories assume that nobody but the harness actors holds a vote permission
 	for _, p := range votePerm {
@@ -474,6 +562,21 @@ func main() {
 		}
 		if spec == nil && r.Chance(30) {
 			_ = k.SetProposalDuration(hctx, typeNames[r.Intn(5)], uint64(durVals[5+r.Intn(5)]))
+		}
+		hasPool := spec == nil && r.Chance(55) || spec != nil && spec.Dynamic
+		if hasPool {
+			pc := randPool(r, na, quorums, secs)
+			if spec != nil {
+				pc = &content{Kind: "poolupdate", A: 1, B: spec.Quorum, Period: 1, Enact: 1}
+				for i := 0; i < spec.N; i++ {
+					pc.Owners = append(pc.Owners, int64(i))
+				}
+			}
+			pr := pc.real().(*spendingtypes.UpdateSpendingPoolProposal)
+			if err := spk.CreateSpendingPool(hctx, spendingtypes.SpendingPool{Name: poolNames[0], VoteQuorum: pr.VoteQuorum, VotePeriod: pr.VotePeriod,
+				VoteEnactment: pr.VoteEnactment, Owners: &pr.Owners, Beneficiaries: &pr.Beneficiaries, Balances: sdk.Coins{}}); err != nil {
+				panic(err)
+			}
 		}
 		w0 := worldCoq(hctx, k)
 		lastWorld := w0
@@ -615,6 +718,9 @@ func main() {
 		}
 
 		randContent := func() *content {
+			if hasPool && r.Chance(30) || r.Chance(2) {
+				return randPool(r, na, quorums, secs)
+			}
 			switch r.Intn(10) {
 			case 0, 1, 2:
 				pid := int64(r.Intn(5))
@@ -667,7 +773,11 @@ func main() {
 		}
 
 		if spec != nil {
-			doOp(op{Kind: "submit", T: t, H: h, Who: 0, Content: &content{Kind: "registry", A: 1, B: "5"}})
+			bc := &content{Kind: "registry", A: 1, B: "5"}
+			if spec.Dynamic {
+				bc = &content{Kind: "poolupdate", A: 1, Owners: []int64{0, 1}, B: "510000000000000000", Period: 2, Enact: 3}
+			}
+			doOp(op{Kind: "submit", T: t, H: h, Who: 0, Content: bc})
 			for i := 0; i < spec.Votes; i++ {
 				opt := int64(3 - int64(i%2)) // no / abstain
 				if i < spec.Veto {
